@@ -203,7 +203,7 @@ type workerResult struct {
 	States        []uint64       `json:"states"`
 	Faults        map[string]int `json:"faults"`
 	Probes        map[string]int `json:"probes"`
-	SimTimeNs     int64          `json:"sim_time_ns"`
+	SimTimeS      float64        `json:"sim_time_s"`
 	Steps         int64          `json:"steps"`
 	Inconclusive  int            `json:"inconclusive"`
 	Samples       []any          `json:"samples"`
@@ -360,14 +360,15 @@ func check(prop, tr string) int {
 	known := map[string]int{}
 	var samples []any
 	evals, nontriv, inconcl := 0, 0, 0
-	var simNs, steps int64
+	var steps int64
+	var simS float64
 	saturated := false
 	var first *found
 	for _, r := range results {
 		evals += r.Evaluations
 		nontriv += r.Nontrivial
 		inconcl += r.Inconclusive
-		simNs += r.SimTimeNs
+		simS += r.SimTimeS
 		steps += r.Steps
 		saturated = saturated || r.KeysSaturated
 		for _, k := range r.Keys {
@@ -426,7 +427,7 @@ func check(prop, tr string) int {
 		"distinct_abstract_states":   len(states),
 		"runs_per_hour":              int(float64(evals) / maxf(wall-buildS, 0.001) * 3600),
 		"seeds_per_hour":             int(3600 / maxf(wall, 0.001)),
-		"simulated_time_s":           float64(simNs) / 1e9,
+		"simulated_time_s":           simS,
 		"scheduler_steps":            steps,
 		"faults_injected":            faults,
 		"probes":                     probes,
@@ -460,7 +461,7 @@ func check(prop, tr string) int {
 		die(2, "write evidence: %v", err)
 	}
 
-	fmt.Printf("%s: %d runs (%d non-trivial, %d distinct, %d abstract states, %d inconclusive) in %.1fs; sim time %.1fs\n", prop, evals, nontriv, len(keys), len(states), inconcl, wall, float64(simNs)/1e9)
+	fmt.Printf("%s: %d runs (%d non-trivial, %d distinct, %d abstract states, %d inconclusive) in %.1fs; sim time %.1fs\n", prop, evals, nontriv, len(keys), len(states), inconcl, wall, simS)
 	printMap("faults", faults)
 	printMap("probes", probes)
 	if len(other) > 0 {
